@@ -50,6 +50,7 @@ extern "C" {
    extern char   v_arg_0;     /* arg[0]    at the time of the call                     */
    extern const char* gp_arg; /* the argument pointer itself                           */
    extern double v_ret;       /* what atof returned                                    */
+   extern int    g_rec[3];    /* readValue: number of atof calls, arg[g_k], arg[g_tl]  */
    extern int    v_nret;      /* what NameSet::number returned                         */
    extern int    g_num;       /* NameSet::num()                                        */
    extern int    g_added;     /* NameSet::add calls                                    */
@@ -111,14 +112,13 @@ char* strchr(const char* str, int chr)
  * unconstrained double (the numeric value is the business of C12's bounded stand-in, not of this unit). */
 double atof(const char* a)
 {
-   g_calls++;
-   gp_arg = a;
+   g_rec[0]++;
 
    if(INOBJ(a, g_k))
-      v_arg_k = a[g_k];
+      g_rec[1] = a[g_k];
 
    if(INOBJ(a, g_tl))
-      v_arg_end = a[g_tl];
+      g_rec[2] = a[g_tl];
 
    v_ret = nondet_double();
    return v_ret;
@@ -239,16 +239,15 @@ extern "C" R LPFreadValue(char*& pos, SPxOut* spxout)
 {
 #include "LPFreadValue.inc"
 }
-extern "C" double w_readValue(char* line, int n, int off, int* off_out, int* tl_out, int* end_out)
+extern "C" double w_readValue(char* line, int n, int off, int* out)
 {
    VIN("n", n); VIN("len", g_len); VIN("off", off); VIN_ARR8("text", line + off, n - off);
    char* p = line + off;
-   gp_line = line; gpp_pos = &p;
    R v = LPFreadValue(p, 0);
-   int out = (int)(p - line);
+   int o = (int)(p - line);
    /* witness for the token length: a number token contains no white space, so a blank in front of the final pos is the skipped one */
-   int tl = (out > off && LPFisSpace(line[out - 1])) ? out - off - 1 : out - off;
-   *off_out = out; *tl_out = tl; *end_out = line[off + tl];
+   int tl = (o > off && LPFisSpace(line[o - 1])) ? o - off - 1 : o - off;
+   out[0] = o; out[1] = tl; out[2] = line[off + tl];
    return v;
 }
 #endif
